@@ -14,9 +14,14 @@ def parse(out):
     problems = []
     final = None
     done = False
-    for line in out.split('\n'):
+    lines = out.split('\n')
+    if lines and not out.endswith('\n'):
+        lines = lines[:-1]          # the process died in the middle of a line: drop the fragment
+    for line in lines:
         f = line.split()
         if not f:
+            continue
+        if f[0] == 'inv' and (len(f) < 5 or not f[-1].startswith('@')):
             continue
         if f[0] == 'thr':
             thr[int(f[1])] = (f[2], int(f[3]))
@@ -33,6 +38,8 @@ def parse(out):
             o['res'] = f[3:-1]
         elif f[0] == 'final':
             final = dict(x.split('=') for x in f[1:])
+        elif f[0] == 'OVERLAP':
+            problems.append('VIOLATION[layout] the current version has overlapping files above level 0: ' + line[:120])
         elif f[0] in ('DEADLOCK', 'LIVELOCK', 'SCHED-ERROR'):
             problems.append('VIOLATION[deadlock] ' + line[:200])
         elif f[0] == 'done':
@@ -92,6 +99,8 @@ def sync_durability(out, ops):
             cur_op[int(f[1])] = (int(f[2]), f[-2] == '1')
         elif f[0] == 'cs':
             kv = dict(x.split('=', 1) for x in f[3:] if '=' in x)
+            if 'q' not in kv or 'ls' not in kv:
+                continue          # a line cut short by a crash or a timeout
             q = [] if kv['q'] == '.' else [int(x.rstrip('d')) for x in kv['q'].split(',')]
             ls = int(kv['ls'])
             t = int(f[1])
